@@ -215,6 +215,17 @@ theorem qlinearRange_eq_codes (c : LinCfg) (h : c.signFn = false) :
   simp only [h, Bool.false_eq_true, if_false, List.map_append, List.map_map]
   rfl
 
+/-- element `j` of the output row is channel `j`'s scalar quantizer -/
+theorem qlinearPC_getElem (t : Tie) (c : LinCfg) (as row : List ℚ) (j : ℕ) (hj : j < as.length)
+    (hr : j < row.length) :
+    (qlinearPC t c as row)[j]'(by simp [qlinearPC]; omega) = qlinear t (c.chan as[j]) row[j] := by
+  simp [qlinearPC]
+
+theorem qbitsPC_getElem (t : Tie) (c : BitsCfg) (as row : List ℚ) (j : ℕ) (hj : j < as.length)
+    (hr : j < row.length) :
+    (qbitsPC t c as row)[j]'(by simp [qbitsPC]; omega) = qbits t (c.chan as[j]) row[j] := by
+  simp [qbitsPC]
+
 theorem lmax_ge_aux (l : List ℚ) (m : ℚ) :
     m ≤ l.foldl (fun m a => if m < a then a else m) m ∧
     ∀ a ∈ l, a ≤ l.foldl (fun m a => if m < a then a else m) m := by
